@@ -6,7 +6,9 @@ Trace == ndJsonDeserialize(IOEnv.TRACE)
 VARIABLES l, bad
 Pre(e) == \A i \in 1..Len(e.paths) : LatticeOK(e.box, e.paths[i])
 Ok(e) == /\ e.k = "clipline"
-         /\ Assert(Pre(e), <<"generator fault: crossing off the lattice", e>>)
+         \* a re-clipped piece lies inside the box when the first clip was right, and then Pre holds
+         \* trivially; for generated inputs a failing Pre is a generator fault and stops the run
+         /\ IF e.re = 1 THEN Pre(e) ELSE Assert(Pre(e), <<"generator fault: crossing off the lattice", e>>)
          /\ e.mod = 0                                                 \* input not modified
          /\ AllInBox(e.box, e.out)
          /\ \A i \in 1..Len(e.out) : Len(e.out[i]) >= 1
